@@ -12,7 +12,9 @@ import (
 
 	lua "github.com/yuin/gopher-lua"
 
+	"verif/internal/glrun"
 	"verif/internal/harness"
+	"verif/internal/luaref"
 )
 
 func c10EnvPart(r *harness.Run) {
@@ -122,4 +124,70 @@ func c10EnvPart(r *harness.Run) {
 			}
 		}
 	}
+}
+
+// c10APIChain: the complete __index/__newindex chain product of C04's F-chain with every read and
+// store made through the Go API by a host function; the reference interpreter's host functions
+// are the plain index and newindex events, so the API calls are judged against Lua's semantics
+// (not merely against the Lua operators of the same build).
+func c10APIChain(r *harness.Run) {
+	pr := &progRunner{r: r, prop: "C10", opts: lua.Options{}}
+	pr.setupM = func(in *luaref.Interp) {
+		get := func(in *luaref.Interp, a []luaref.Value) []luaref.Value {
+			return []luaref.Value{in.Index(apiArg(a, 0), apiArg(a, 1))}
+		}
+		set := func(in *luaref.Interp, a []luaref.Value) []luaref.Value {
+			in.SetIndex(apiArg(a, 0), apiArg(a, 1), apiArg(a, 2))
+			return nil
+		}
+		in.Register("apigetfield", get)
+		in.Register("apigettable", get)
+		in.Register("apisetfield", set)
+		in.Register("apisettable", set)
+	}
+	pr.extraI = func(m *glrun.Impl) {
+		L := m.L
+		L.SetGlobal("apigetfield", L.NewFunction(func(L *lua.LState) int {
+			top := L.GetTop()
+			v := L.GetField(L.Get(1), L.CheckString(2))
+			if L.GetTop() != top {
+				L.RaiseError("GetField changed the stack height")
+			}
+			L.Push(v)
+			return 1
+		}))
+		L.SetGlobal("apigettable", L.NewFunction(func(L *lua.LState) int {
+			top := L.GetTop()
+			v := L.GetTable(L.Get(1), L.Get(2))
+			if L.GetTop() != top {
+				L.RaiseError("GetTable changed the stack height")
+			}
+			L.Push(v)
+			return 1
+		}))
+		L.SetGlobal("apisetfield", L.NewFunction(func(L *lua.LState) int {
+			top := L.GetTop()
+			L.SetField(L.Get(1), L.CheckString(2), L.Get(3))
+			if L.GetTop() != top {
+				L.RaiseError("SetField changed the stack height")
+			}
+			return 0
+		}))
+		L.SetGlobal("apisettable", L.NewFunction(func(L *lua.LState) int {
+			top := L.GetTop()
+			L.SetTable(L.Get(1), L.Get(2), L.Get(3))
+			if L.GetTop() != top {
+				L.RaiseError("SetTable changed the stack height")
+			}
+			return 0
+		}))
+	}
+	pr.runGens(map[string]Gen{"F-apichain": genMetaChainVia(r.Thorough(), true)}, []string{"F-apichain"})
+}
+
+func apiArg(a []luaref.Value, i int) luaref.Value {
+	if i < len(a) {
+		return a[i]
+	}
+	return nil
 }
